@@ -157,7 +157,19 @@ pub fn c11(cfg: &Cfg) -> i32 {
         for i in 0..n {
             let (mirror, flip) = [(true, false), (false, true), (true, true)][(i % 3) as usize];
             let fam = i % 10;
-            let (b, gold, mv, pol, turns) = if fam < 3 {
+            let (b, gold, mv, pol, turns) = if i % 50 == 7 {
+                // one step away from a mirror-symmetric board: afterwards game and image show the same board
+                match gen::one_step_from_symmetric(&mut rng) {
+                    Some((b, g, m, code)) => {
+                        sink.count("games_from_one_step_before_a_symmetric_board");
+                        (b, g, m, Policy::Script(vec![code]), 60)
+                    }
+                    None => {
+                        let (b, g, m) = gen::w1(&mut rng);
+                        (b, g, m, policy_for(Family::W1, &mut rng), 100)
+                    }
+                }
+            } else if fam < 3 {
                 let (b, g, m) = gen::w1(&mut rng);
                 (b, g, m, policy_for(Family::W1, &mut rng), 100)
             } else if fam < 5 {
@@ -433,6 +445,10 @@ struct C17Play {
     transitions: u64,
     variants: u64,
     after_capture: u64,
+    /// older states of the same game (the turn start and the state two steps back), used as destinations of
+    /// clone_from: the re-seated copy must carry the hash of the state it was copied from
+    older: Vec<GameState>,
+    reseated: u64,
 }
 impl Monitor for C17Play {
     fn on_transition(&mut self, t: &Trans, s: &mut Sink) {
@@ -440,6 +456,28 @@ impl Monitor for C17Play {
             return;
         }
         self.transitions += 1;
+        // copies made in place over older states of the same game (same board at another step after a step and
+        // its undo, or the same board met in another turn)
+        for old in self.older.iter() {
+            let r = guard("clone_from", || {
+                let mut d = old.clone();
+                d.clone_from(t.after);
+                (d.transposition_hash(), t.after.transposition_hash(), d.current_step(), d == *t.after)
+            });
+            if let Ok((hd, ha, st, eq)) = r {
+                self.reseated += 1;
+                if hd != ha || st != t.obs_step as usize || !eq {
+                    s.violate_game("C17", "reseated_copy_keeps_another_states_hash", t.rec, format!("after {}: a state overwritten in place with clone_from has hash {:#018x} and step {}, the state it was copied from has hash {:#018x} and step {} (equal by ==: {})", code_text(t.code), hd, st, ha, t.obs_step, eq));
+                }
+            }
+        }
+        if t.turn_ended || self.older.is_empty() {
+            self.older.clear();
+            self.older.push(t.after.clone());
+        } else {
+            self.older.truncate(1);
+            self.older.push(t.before.g.clone());
+        }
         let r = guard("hash of reached state", || (t.after.transposition_hash(), t.after.unwrap_play_phase().push_pull_state()));
         let (h, status) = match r {
             Ok(x) => x,
@@ -541,6 +579,7 @@ impl Monitor for C17Play {
         s.add("reached_state_variants_compared", self.variants);
         s.add("pairs_compared", self.variants);
         s.add("reached_states_right_after_a_capture", self.after_capture);
+        s.add("copies_reseated_over_older_states", self.reseated);
     }
 }
 
